@@ -749,7 +749,7 @@ lzma_lzma_encoder_memusage(const void *options)
 extern uint64_t
 lzma_lzma_encoder_memusage_history(const void *options, uint32_t history_min)
 {
-	if (!is_options_valid(options))
+	if (options == NULL || !is_options_valid(options))
 		return UINT64_MAX;
 
 	lzma_lz_options lz_options;
